@@ -25,7 +25,11 @@ def site_where(site):
 
 
 def run(prog, rep, tier):
-    funcs = [f for f in prog.funcs.values() if f.module.name.startswith("sempler.") and f.module.name != "sempler.plot"]
+    # entry points: everything a user can call.  Private helpers (leading underscore) are analysed inside their
+    # callers (the analysis is interprocedural), where it is known what they are handed
+    called = set()
+    funcs = [f for f in prog.funcs.values() if f.module.name.startswith("sempler.") and f.module.name != "sempler.plot"
+             and not (f.name.startswith("_") and not f.name.startswith("__") and f.qname not in ("sempler.semi._bootstrap", "sempler.lganm._parse_interventions"))]
     if tier == "thorough":
         funcs += [f for f in prog.funcs.values() if f.module.name.startswith("drf")]
     O = OW.Own(prog)
